@@ -26,7 +26,7 @@ use libp2p_core::{transport::PortUse, ConnectedPoint, Endpoint, Multiaddr};
 use libp2p_gossipsub::{
     self as gs,
     verif::{self, pb, HandlerEvent, PeerKind},
-    Behaviour, ConfigBuilder, Event, IdentTopic, MessageAuthenticity, MessageId,
+    Behaviour, ConfigBuilder, Event, IdentTopic, MessageAcceptance, MessageAuthenticity, MessageId,
 };
 use libp2p_identity::{Keypair, PeerId};
 use libp2p_swarm::{
@@ -44,6 +44,8 @@ struct Node {
     conn: BTreeMap<usize, usize>,
     next_conn: usize,
     _handlers: Vec<verif::Handler>,
+    /// validate_messages mode: messages handed to the application and not yet accepted
+    pend: VecDeque<(MessageId, PeerId)>,
 }
 
 struct Net {
@@ -55,6 +57,12 @@ struct Net {
     topics: Vec<IdentTopic>,
     /// RPCs delivered in this run
     delivered: usize,
+    /// (n, b): node n's RPCs for b are left in its real send queue until released
+    held: std::collections::BTreeSet<(usize, usize)>,
+    /// peers announce gossipsub v1.2 (IDONTWANT)
+    v12: bool,
+    /// nodes run with validate_messages(): forwarding waits for the application's Accept
+    val: bool,
 }
 
 /// a healthy run of 12 nodes needs a few thousand deliveries; a network that does not quiesce
@@ -62,7 +70,13 @@ struct Net {
 const MAX_DELIVERIES: usize = 30_000;
 
 fn payload_k(data: &[u8]) -> i64 {
-    std::str::from_utf8(data).ok().and_then(|s| s.strip_prefix('m')).and_then(|s| s.parse().ok()).unwrap_or(-1)
+    // "m<k>" optionally followed by padding (big messages, above the IDONTWANT size threshold)
+    std::str::from_utf8(data)
+        .ok()
+        .and_then(|s| s.strip_prefix('m'))
+        .map(|s| s.chars().take_while(|c| c.is_ascii_digit()).collect::<String>())
+        .and_then(|s| s.parse().ok())
+        .unwrap_or(-1)
 }
 
 impl Net {
@@ -71,6 +85,9 @@ impl Net {
         let mut snd = vec![];
         let nbrs: Vec<usize> = self.nodes[n].conn.keys().copied().collect();
         for b in nbrs {
+            if self.held.contains(&(n, b)) {
+                continue; // the RPCs stay in the behaviour's real per-peer send queue
+            }
             let peer = self.nodes[b].id;
             for rpc in self.nodes[n].gs.verif_drain_rpcs(&peer) {
                 for m in &rpc.publish {
@@ -89,7 +106,12 @@ impl Net {
         let mut got = vec![];
         for _ in 0..100_000 {
             match self.nodes[n].gs.poll(&mut cx) {
-                Poll::Ready(ToSwarm::GenerateEvent(Event::Message { message, .. })) => got.push(payload_k(&message.data)),
+                Poll::Ready(ToSwarm::GenerateEvent(Event::Message { message, message_id, propagation_source })) => {
+                    got.push(payload_k(&message.data));
+                    if self.val {
+                        self.nodes[n].pend.push_back((message_id, propagation_source));
+                    }
+                }
                 Poll::Ready(_) => {}
                 Poll::Pending => break,
             }
@@ -124,7 +146,7 @@ impl Net {
                 failed_addresses: &[],
                 other_established: 0,
             }));
-            node.gs.on_connection_handler_event(peer, cid, HandlerEvent::PeerKind(PeerKind::Gossipsubv1_1));
+            node.gs.on_connection_handler_event(peer, cid, HandlerEvent::PeerKind(if self.v12 { PeerKind::Gossipsubv1_2 } else { PeerKind::Gossipsubv1_1 }));
             node.conn.insert(y, c);
         }
     }
@@ -175,6 +197,51 @@ impl Net {
         Some(ev)
     }
 
+    /// The application at node x accepts its i-th pending message (validate_messages mode): the
+    /// behaviour forwards it now. Reported as a step of x that delivers nothing and queues `snd`.
+    fn accept(&mut self, x: usize, i: usize) -> Option<Value> {
+        let len = self.nodes[x].pend.len();
+        if len == 0 {
+            return None;
+        }
+        let (id, src) = self.nodes[x].pend.remove(i % len).unwrap();
+        self.nodes[x].gs.report_message_validation_result(&id, &src, MessageAcceptance::Accept);
+        let got = self.events(x);
+        let snd = self.flush(x);
+        Some(json!({"e": "hb", "n": x, "got": got, "snd": snd, "accept": true}))
+    }
+
+    fn accept_all(&mut self) -> Vec<Value> {
+        let mut evs = vec![];
+        for x in 0..self.nodes.len() {
+            while let Some(e) = self.accept(x, 0) {
+                evs.push(e);
+            }
+        }
+        evs
+    }
+
+    /// deliver on random busy links until nothing is in flight; in validate mode the applications
+    /// accept whatever is pending whenever the wires are empty
+    fn drain(&mut self, r: &mut impl Rng, evs: &mut Vec<Value>) {
+        for _ in 0..20_000 {
+            let busy = self.busy_links();
+            if busy.is_empty() {
+                let acc = self.accept_all();
+                if acc.is_empty() {
+                    break;
+                }
+                evs.extend(acc);
+                continue;
+            }
+            let (x, y) = *busy.choose(r).unwrap();
+            match self.deliver(x, y) {
+                Some(e) => evs.push(e),
+                None => break,
+            }
+        }
+    }
+
     fn busy_links(&self) -> Vec<(usize, usize)> {
         self.links.iter().filter(|(_, q)| !q.is_empty()).map(|(k, _)| *k).collect()
     }
@@ -198,6 +265,10 @@ fn run(out: &mut Out, sched: &Value) {
         .heartbeat_interval(Duration::from_secs(3600))
         .heartbeat_initial_delay(Duration::from_secs(1_000_000))
         .duplicate_cache_time(Duration::from_secs(3600));
+    let val = c.get("val").and_then(|x| x.as_bool()).unwrap_or(false);
+    if val {
+        b.validate_messages();
+    }
     let cfg = b.build().expect("config");
     let topics: Vec<IdentTopic> = (0..nt).map(|t| IdentTopic::new(format!("t{t}"))).collect();
     let nodes: Vec<Node> = (0..n)
@@ -211,10 +282,11 @@ fn run(out: &mut Out, sched: &Value) {
                 conn: BTreeMap::new(),
                 next_conn: 0,
                 _handlers: vec![],
+                pend: VecDeque::new(),
             }
         })
         .collect();
-    let mut net = Net { nodes, links: BTreeMap::new(), ids: HashMap::new(), topics, delivered: 0 };
+    let mut net = Net { nodes, links: BTreeMap::new(), ids: HashMap::new(), topics, delivered: 0, held: Default::default(), v12: c.get("v12").and_then(|x| x.as_bool()).unwrap_or(false), val };
     out.reset_with(json!({"n": n, "nt": nt}), sched);
     let ops = sched["ops"].as_array().unwrap();
     for op in ops {
@@ -241,7 +313,12 @@ fn run(out: &mut Out, sched: &Value) {
                 "pub" => {
                     let (x, t, k) = (vcommon::n(op, "n") as usize, vcommon::n(op, "t") as usize, vcommon::n(op, "k"));
                     let topic = net.topics[t].hash();
-                    let r = net.nodes[x].gs.publish(topic, format!("m{k}").into_bytes());
+                    let mut payload = format!("m{k}");
+                    if op.get("big").and_then(|x| x.as_bool()).unwrap_or(false) {
+                        payload.push(' ');
+                        payload.push_str(&"x".repeat(1200));
+                    }
+                    let r = net.nodes[x].gs.publish(topic, payload.into_bytes());
                     let ok = r.is_ok();
                     if let Ok(id) = r {
                         net.ids.insert(id, k);
@@ -250,12 +327,30 @@ fn run(out: &mut Out, sched: &Value) {
                     let snd = net.flush(x);
                     vec![json!({"e": "pub", "n": x, "t": t, "k": k, "res": ok, "got": got, "snd": snd})]
                 }
+                // hold: node x's RPCs for y stay in the real send queue (a slow link); release: they go onto the wire now
+                "hold" => {
+                    let (x, y) = (vcommon::n(op, "x") as usize, vcommon::n(op, "y") as usize);
+                    net.held.insert((x, y));
+                    vec![]
+                }
+                "release" => {
+                    let (x, y) = (vcommon::n(op, "x") as usize, vcommon::n(op, "y") as usize);
+                    if !net.held.remove(&(x, y)) {
+                        return vec![];
+                    }
+                    let snd = net.flush(x);
+                    vec![json!({"e": "hb", "n": x, "got": [], "snd": snd, "release": true})]
+                }
                 "hb" => {
                     let x = vcommon::n(op, "n") as usize;
                     net.nodes[x].gs.verif_heartbeat();
                     let got = net.events(x);
                     let snd = net.flush(x);
                     vec![json!({"e": "hb", "n": x, "got": got, "snd": snd})]
+                }
+                "accept" => {
+                    let (x, i) = (vcommon::n(op, "n") as usize, vcommon::n(op, "i") as usize);
+                    net.accept(x, i).into_iter().collect()
                 }
                 // deliver one RPC on the i-th busy link (i taken modulo the number of busy links)
                 "dlv" => {
@@ -270,17 +365,7 @@ fn run(out: &mut Out, sched: &Value) {
                 "quiesce" => {
                     let mut evs = vec![];
                     let mut r = vcommon::rng(vcommon::n(op, "s") as u64);
-                    for _ in 0..20_000 {
-                        let busy = net.busy_links();
-                        if busy.is_empty() {
-                            break;
-                        }
-                        let (x, y) = *busy.choose(&mut r).unwrap();
-                        match net.deliver(x, y) {
-                            Some(e) => evs.push(e),
-                            None => break,
-                        }
-                    }
+                    net.drain(&mut r, &mut evs);
                     evs
                 }
                 // form: (heartbeat at every node, then quiescence) until a whole round moved no GRAFT/PRUNE
@@ -296,17 +381,7 @@ fn run(out: &mut Out, sched: &Value) {
                             let snd = net.flush(x);
                             evs.push(json!({"e": "hb", "n": x, "got": got, "snd": snd}));
                         }
-                        for _ in 0..20_000 {
-                            let busy = net.busy_links();
-                            if busy.is_empty() {
-                                break;
-                            }
-                            let (x, y) = *busy.choose(&mut r).unwrap();
-                            match net.deliver(x, y) {
-                                Some(e) => evs.push(e),
-                                None => break,
-                            }
-                        }
+                        net.drain(&mut r, &mut evs);
                         let churn = evs[before..].iter().any(|e| e.get("gr").and_then(|x| x.as_u64()).unwrap_or(0) + e.get("pr").and_then(|x| x.as_u64()).unwrap_or(0) > 0);
                         if !churn {
                             break;
@@ -318,6 +393,12 @@ fn run(out: &mut Out, sched: &Value) {
                 // afterwards the completeness clause of the property is due
                 "settle" => {
                     let mut evs = vec![];
+                    let held: Vec<(usize, usize)> = net.held.iter().copied().collect();
+                    for (x, _) in held {
+                        net.held.retain(|(a, _)| *a != x);
+                        let snd = net.flush(x);
+                        evs.push(json!({"e": "hb", "n": x, "got": [], "snd": snd, "release": true}));
+                    }
                     let mut r = vcommon::rng(vcommon::n(op, "s") as u64);
                     let rounds = vcommon::n(op, "rounds") as usize;
                     let mut quiet = false;
@@ -330,17 +411,7 @@ fn run(out: &mut Out, sched: &Value) {
                             let snd = net.flush(x);
                             evs.push(json!({"e": "hb", "n": x, "got": got, "snd": snd}));
                         }
-                        for _ in 0..20_000 {
-                            let busy = net.busy_links();
-                            if busy.is_empty() {
-                                break;
-                            }
-                            let (x, y) = *busy.choose(&mut r).unwrap();
-                            match net.deliver(x, y) {
-                                Some(e) => evs.push(e),
-                                None => break,
-                            }
-                        }
+                        net.drain(&mut r, &mut evs);
                         quiet = net.busy_links().is_empty();
                     }
                     evs.push(json!({"e": "end", "quiet": quiet, "due": op.get("due").and_then(|x| x.as_bool()).unwrap_or(false)}));
@@ -423,19 +494,85 @@ fn gen_one(rng: &mut impl Rng, max_n: usize) -> Value {
     }
     let nmsg = rng.gen_range(1..=5);
     let mut k = 0;
+    let v12 = rng.gen_bool(0.4);
+    let val = rng.gen_bool(0.3);
     for _ in 0..nmsg {
         k += 1;
-        ops.push(json!({"a": "pub", "n": rng.gen_range(0..n), "t": rng.gen_range(0..nt), "k": k}));
+        if v12 && rng.gen_bool(0.5) {
+            // slow links: some queues are held back while traffic (incl. IDONTWANT) keeps arriving
+            for _ in 0..rng.gen_range(1..=3) {
+                let (x, y) = edges[rng.gen_range(0..edges.len())];
+                let (x, y) = if rng.gen_bool(0.5) { (x, y) } else { (y, x) };
+                ops.push(json!({"a": if rng.gen_bool(0.7) { "hold" } else { "release" }, "x": x, "y": y}));
+            }
+        }
+        ops.push(json!({"a": "pub", "n": rng.gen_range(0..n), "t": rng.gen_range(0..nt), "k": k, "big": v12 && rng.gen_bool(0.5)}));
         for _ in 0..rng.gen_range(0..(4 * n)) {
             if rng.gen_bool(0.08) {
                 ops.push(json!({"a": "hb", "n": rng.gen_range(0..n)}));
+            } else if val && rng.gen_bool(0.25) {
+                ops.push(json!({"a": "accept", "n": rng.gen_range(0..n), "i": rng.gen_range(0..4)}));
             } else {
                 ops.push(json!({"a": "dlv", "i": rng.gen_range(0..64)}));
             }
         }
     }
     ops.push(json!({"a": "settle", "s": rng.gen_range(0..1_000_000), "rounds": n + 2, "due": formed}));
-    json!({"cfg": {"n": n, "nt": nt, "lo": lo, "mn": mn, "hi": hi, "flood": flood}, "ops": ops})
+    json!({"cfg": {"n": n, "nt": nt, "lo": lo, "mn": mn, "hi": hi, "flood": flood, "v12": v12, "val": val}, "ops": ops})
+}
+
+/// directed: chain x(0) - p(1) - y(2); y publishes a big message, p's IDONTWANT for it reaches x while x still has a
+/// burst of small publishes queued for p (slow link): none of them may be lost (seeded mutant C27-1)
+fn directed() -> Vec<Value> {
+    let mut v = vec![];
+    for burst in [1, 3, 5] {
+        let mut ops = vec![json!({"a": "conn", "x": 0, "y": 1}), json!({"a": "conn", "x": 1, "y": 2})];
+        for x in 0..3 {
+            ops.push(json!({"a": "sub", "n": x, "t": 0}));
+        }
+        ops.push(json!({"a": "quiesce", "s": 1}));
+        ops.push(json!({"a": "form", "s": 2, "max": 10}));
+        ops.push(json!({"a": "hold", "x": 0, "y": 1}));
+        ops.push(json!({"a": "hold", "x": 1, "y": 0}));
+        ops.push(json!({"a": "pub", "n": 2, "t": 0, "k": 1, "big": true}));
+        ops.push(json!({"a": "quiesce", "s": 3}));
+        for i in 0..burst {
+            ops.push(json!({"a": "pub", "n": 0, "t": 0, "k": 2 + i}));
+        }
+        ops.push(json!({"a": "release", "x": 1, "y": 0}));
+        ops.push(json!({"a": "quiesce", "s": 4}));
+        ops.push(json!({"a": "release", "x": 0, "y": 1}));
+        ops.push(json!({"a": "quiesce", "s": 5}));
+        ops.push(json!({"a": "settle", "s": 6, "rounds": 5, "due": true}));
+        v.push(json!({"cfg": {"n": 3, "nt": 1, "lo": 1, "mn": 2, "hi": 3, "flood": true, "v12": true}, "ops": ops}));
+    }
+    // validate_messages mode on a clique of 3 / 4: while a node's application still validates a message,
+    // the other mesh peers forward the same message to it; after Accept none of them may get it back
+    // (seeded mutant C27-2)
+    for n in [3usize, 4] {
+        let mut ops = vec![];
+        for x in 0..n {
+            for y in (x + 1)..n {
+                ops.push(json!({"a": "conn", "x": x, "y": y}));
+            }
+            ops.push(json!({"a": "sub", "n": x, "t": 0}));
+        }
+        ops.push(json!({"a": "quiesce", "s": 1}));
+        ops.push(json!({"a": "form", "s": 2, "max": 10}));
+        ops.push(json!({"a": "pub", "n": 0, "t": 0, "k": 1}));
+        // everything node 0 sent arrives; then nodes 2.. accept first, their forwards reach node 1
+        // before node 1's application accepts
+        for _ in 0..n {
+            ops.push(json!({"a": "dlv", "i": 0}));
+        }
+        for x in 2..n {
+            ops.push(json!({"a": "accept", "n": x, "i": 0}));
+        }
+        ops.push(json!({"a": "quiesce", "s": 3}));
+        ops.push(json!({"a": "settle", "s": 4, "rounds": 4, "due": true}));
+        v.push(json!({"cfg": {"n": n, "nt": 1, "lo": 4, "mn": 6, "hi": 12, "flood": true, "val": true}, "ops": ops}));
+    }
+    v
 }
 
 pub fn main(a: &vcommon::Args) {
@@ -457,6 +594,9 @@ pub fn main(a: &vcommon::Args) {
             let max_n = a.num(3) as usize;
             let mut out = Out::create(a.get(4));
             let mut rng = vcommon::rng(seed ^ 0x2545_f491);
+            for s in directed() {
+                run(&mut out, &s);
+            }
             for _ in 0..runs {
                 let s = gen_one(&mut rng, max_n);
                 run(&mut out, &s);
